@@ -16,6 +16,7 @@ import (
 	"strings"
 	"sync"
 	"testing"
+	"time"
 
 	"verif/harness/internal/crashenum"
 	"verif/harness/internal/evid"
@@ -196,8 +197,13 @@ func TestC04(t *testing.T) {
 	}
 	close(jc)
 	wg.Wait()
+	if r.Only < 0 {
+		for i := 0; i < r.N(6, 40); i++ {
+			overlappingSaves(t, r, tmp, i)
+		}
+	}
 	r.Exhaustive(true)
-	r.Require("kill_points", "errors_injected", "short_writes", "post_kill_pre_state", "post_kill_post_state", "errors_reported_by_call", "syscalls_traced")
+	r.Require("overlapping_save_rounds", "kill_points", "errors_injected", "short_writes", "post_kill_pre_state", "post_kill_post_state", "errors_reported_by_call", "syscalls_traced")
 	r.Rule("for each mutating operation kind (database creation, first put, new version, activate, delete-version, delete; thorough: also multi-megabyte databases and edge states) the fault-free system-call trace of the save is recorded, and EVERY watched call of it is visited as kill-before, kill-after, each errno of a per-syscall list, and for writes as short write (1, half, len-1 bytes) with and without a kill. Distinct = (scenario, syscall, fault kind). exhaustive refers to the syscall-boundary enumeration of each recorded trace")
 }
 
@@ -381,4 +387,105 @@ func firstLine(b []byte) string {
 		s = s[:i]
 	}
 	return s
+}
+
+// overlappingSaves: the all-or-nothing claim is per call, also when calls overlap. Rounds of G concurrent
+// calls of ONE kind on G different secrets (so whatever lock mode that kind takes, its instances meet each
+// other); some rounds with the file system failing. After each round (quiescence) the file, opened afresh,
+// must hold exactly what the running process serves: every call that reported success is in it, every call
+// that reported an error is not.
+func overlappingSaves(t *testing.T, r *evid.Run, tmp string, idx int) {
+	dir := filepath.Join(tmp, fmt.Sprintf("overlap%d", idx), "state")
+	os.MkdirAll(dir, 0o700)
+	path := filepath.Join(dir, "db")
+	key := realdb.DummyKey("c04-overlap")
+	d, err := realdb.Open(path, key)
+	if err != nil {
+		t.Fatal(err)
+	}
+	su := realdb.Super()
+	rng := r.Rand(uint64(5000 + idx))
+	const G = 8
+	// the size of the database decides how long a save takes relative to the calls' arrival times
+	filler := big([]int{0, 1 << 12, 1 << 16}[idx%3], byte(idx))
+	for g := 0; g < G; g++ {
+		for v := 0; v < 4; v++ {
+			d.Put(su, fmt.Sprintf("s%d", g), append([]byte(fmt.Sprintf("%d-%d-", g, v)), filler...))
+		}
+	}
+	kinds := []ops.Kind{ops.Act, ops.Put, ops.DelVer, ops.Act, ops.Delete, ops.Put, ops.Act}
+	for round := 0; round < 14; round++ {
+		kind := kinds[rng.IntN(len(kinds))]
+		broken := rng.IntN(5) == 0
+		results := make([]ops.Result, G)
+		oplist := make([]ops.Op, G)
+		run := func() {
+			var wg sync.WaitGroup
+			start := make(chan struct{})
+			for g := 0; g < G; g++ {
+				op := ops.Op{Kind: kind, Name: fmt.Sprintf("s%d", g)}
+				switch kind {
+				case ops.Act, ops.DelVer:
+					op.Version = uint32(1 + rng.IntN(4))
+				case ops.Put:
+					op.Value = append([]byte(fmt.Sprintf("r%d-%d-", round, g)), filler...)
+				}
+				oplist[g] = op
+				delay := time.Duration(rng.IntN(1500)) * time.Microsecond // calls arrive while others are mid-save
+				if rng.IntN(3) == 0 {
+					delay = 0
+				}
+				wg.Add(1)
+				go func(g int) {
+					defer wg.Done()
+					<-start
+					for t0 := time.Now(); time.Since(t0) < delay; {
+					}
+					results[g] = ops.ApplyReal(d, su, oplist[g])
+				}(g)
+			}
+			close(start)
+			wg.Wait()
+		}
+		if broken {
+			realdb.BreakDir(path, run)
+		} else {
+			run()
+		}
+		r.Eval(1)
+		r.Count("overlapping_save_rounds", 1)
+		r.Distinct(fmt.Sprintf("overlapping %s x%d broken-fs=%t", kind, G, broken))
+		live, err := realdb.Dump(d)
+		if err != nil {
+			r.Violation("live-state-inconsistent", -1, fmt.Sprintf("overlap case %d round %d (%s): %v", idx, round, kind, err), nil)
+			return
+		}
+		d2, err := realdb.Open(path, key)
+		if err != nil {
+			r.Violation("file-does-not-open", -1, fmt.Sprintf("overlap case %d: after %d concurrent %s calls the file does not open: %v", idx, G, kind, err), nil)
+			return
+		}
+		file, err := realdb.Dump(d2)
+		if err != nil || file.Canon() != live.Canon() {
+			var lines []string
+			for g := range oplist {
+				lines = append(lines, fmt.Sprintf("%s -> %s", oplist[g], results[g]))
+			}
+			r.Violation("file-differs-from-served-state", -1, fmt.Sprintf("overlap case %d round %d: after %d concurrent %s calls (file system broken=%t) have all returned, the file holds a mixture: it differs from what the process serves (err %v)", idx, round, G, kind, broken, err),
+				map[string]any{"calls": lines, "served": live.Canon(), "file": func() string {
+					if file != nil {
+						return file.Canon()
+					}
+					return ""
+				}()})
+			return
+		}
+		if kind == ops.Delete {
+			for g := 0; g < G; g++ { // re-create what was deleted
+				for v := 0; v < 3; v++ {
+					d.Put(su, fmt.Sprintf("s%d", g), append([]byte(fmt.Sprintf("again%d-%d-%d-", round, g, v)), filler...))
+				}
+			}
+		}
+	}
 }
